@@ -57,6 +57,8 @@ class SimDevice:
         self.unlock_pins = []            # PINs presented with an unlock command
         self.newpin_offered = []         # PINs presented with a change command
         self.sgx_onboard = None
+        self.auth = None
+        self.auth_threshold = 1          # number of valid signatures after which the signer is authorized (None: never)
         self.seed = {}
         self.wiped = False
         # --- signer data
@@ -166,6 +168,22 @@ class SimDevice:
         if cmd == 0xA0:   # SGX_ONBOARD: 0 | seed(32) | pin
             self.sgx_onboard = (data[1:33], data[33:])
             return resp([CLA, 0xA0, 1])
+        if cmd == 0x51:   # SIGNER_AUTH
+            op = data[0]
+            if op == 0x01:
+                if len(data) != 1 + 32 + 2:
+                    raise ProtocolViolation("signer auth: bad sigver size")
+                self.auth = {"hash": data[1:33], "iteration_bytes": data[33:35], "signatures": []}
+                return resp([CLA, 0x51, 0x01])
+            if op == 0x02:
+                if self.auth is None or self.auth.get("done"):
+                    raise ProtocolViolation("signer auth: signature unexpected")
+                self.auth["signatures"].append(data[1:])
+                if self.auth_threshold is not None and len(self.auth["signatures"]) >= self.auth_threshold:
+                    self.auth["done"] = True
+                    return resp([CLA, 0x51, 0x02, 0x02])
+                return resp([CLA, 0x51, 0x02, 0x01])
+            raise ProtocolViolation("signer auth: bad op")
         if cmd == 0x44:   # SEED idx byte
             self.seed[data[0]] = data[1]
             return resp([CLA, 0x44])
